@@ -525,6 +525,15 @@ func ruleSerialDrain(c *core.Ctx, rule string, fn *ssa.Function) {
 				// a consumer handed to fn as a function value (AddHandler's Consumer)
 				if pr, ok := core.Canon(cc.Value).(*ssa.Parameter); ok && pr.Parent() == fn {
 					isHandling = true
+				} else if ok && pr.Parent() == g && f == g {
+					// the goroutine is a named function that receives the consumer as an argument
+					for i, gp := range g.Params {
+						if gp == pr && i < len(gos[0].Call.Args) {
+							if ap, isP := core.Canon(gos[0].Call.Args[i]).(*ssa.Parameter); isP && ap.Parent() == fn {
+								isHandling = true
+							}
+						}
+					}
 				}
 			}
 			if isHandling {
